@@ -7,7 +7,7 @@ import common
 import proofs
 import gen_core as G
 import minerals_trace as MT
-from props import c01, c03
+from props import c01, c03, c06
 
 FILES = ["gen/Gen_core.v", "Model_core.v", "Model_minerals.v", "Proofs_core.v", "Proofs_total.v", "Proofs_minerals.v", "Proofs_flow.v", "Proofs_path.v",
          "Proofs_rhs.v", "Inst_core.v", "Entry_core.v", "Extract_core.v"]
@@ -67,6 +67,44 @@ def null_history_fails(h, kf=None):
     return fails
 
 
+def start_F(sc):
+    """the starting deformation gradient of a history (identity unless the scenario carries one)"""
+    return np.array(sc["F0"], dtype=float).reshape(3, 3) if sc.get("F0") is not None else np.eye(3)
+
+
+def null_F_fails(h, cov=None):
+    """C07: '... while the deformation gradient still follows C06': the F returned by every update of a null-forcing history
+    against an independent DOP853 integration of dF/dt = L(t, x(t)).F (C06's oracle and bound)"""
+    fails = []
+    worst = c06.check_history(h, start_F(h["sc"]), fails)
+    if cov is not None:
+        cov["null_regime_F_error_over_bound_max"] = max(cov.get("null_regime_F_error_over_bound_max", 0.0), worst)
+    return [(k, "null regime / null forcing: " + m) for k, m in fails]
+
+
+UNSTEADY_FLOWS = MT.COINCIDENT_FLOWS + ["time", "position", "stopping", "shear_then_spin"]
+
+
+def null_unsteady_scenarios(rng, tier):
+    """viscosity-bound regimes under velocity gradients that VARY inside an update (in time, along the pathline; incl. the
+    families whose samples at start / midpoint / end coincide), non-identity starting F with det > 0, 1..3 updates; the regime
+    set on the object or (every third history) supplied through get_regime to a mineral built in a dislocation regime"""
+    out = []
+    for r in range(1 if tier == "quick" else 5):
+        for i, lk in enumerate(UNSTEADY_FLOWS):
+            regime = int((0, 7)[(i + r) % 2])
+            sc = MT.scenario(rng, regime=regime, n=int(rng.integers(2, 10)), lkind=lk, nupd=int(rng.integers(1, 4)),
+                             strain=float(rng.uniform(0.4, 0.9)))
+            if lk in MT.COINCIDENT_FLOWS:
+                sc["period"] = float(MT.NICE_PERIODS[int(rng.integers(len(MT.NICE_PERIODS)))])
+            if (i + r) % 3 == 2:
+                sc["regime"] = int((4, 6)[int(rng.integers(2))])
+                sc["regime_switch"] = [regime, regime, 0.0]
+            sc["F0"] = [float(v) for v in c06.random_F0(rng).reshape(-1)]
+            out.append(sc)
+    return out
+
+
 def run(chk):
     ok, br = proofs.prove(chk, FILES, PROP, groups=("core",), gen_modules=MT.GLUE_TIE_GEN)
     import pydrex
@@ -76,7 +114,9 @@ def run(chk):
         "NOT proved: that LSODA returns a state block unchanged when its derivative is identically zero (true of linear multistep methods; observed bit-exactly on every run)",
     ]
     chk.cov["rule"] = ("dispatch: all regime ordinals -2..10 x phase 0..2 x fabric 0..6 (273 calls of derivatives, exception type vs model, exhaustive over that box); "
-                       "histories: zero velocity gradient in every accepted regime, the two viscosity-bound regimes under every flow family, M* = 0 under flows, "
+                       "histories: zero velocity gradient in every accepted regime, the two viscosity-bound regimes under every flow family AND under flows that vary inside an "
+                       "update (time / position dependent, stopping, shear then spin, and the families whose samples at start / midpoint / end of every update coincide), "
+                       "regime set on the object or supplied by get_regime, with the returned F compared against an independent DOP853 integration; M* = 0 under flows, "
                        "failed updates (unsupported regimes, invalid phase/fabric) with before/after comparison of the stored lists; "
                        "non-trivial = a call that must be rejected or a history under a non-zero flow")
     bad, mon, kf = [], [], []
@@ -159,14 +199,23 @@ def run(chk):
                 scg["params"]["gbs_threshold"] = 0.0
                 hg = c01.run_history(rec, scg)
                 c01.validate_traces(chk, hg, bad)
-                mon += [(scg, k, m) for k, m in null_history_fails(hg, kf)]
+                mon += [(scg, k, m) for k, m in null_history_fails(hg, kf) + null_F_fails(hg, chk.cov)]
             # viscosity-bound regimes under every flow
             for regime in (0, 7):
                 for lk in MT.L_FAMILIES:
                     sc = MT.scenario(rng, regime=regime, n=int(rng.integers(2, 10)), lkind=lk, nupd=2)
                     h = c01.run_history(rec, sc)
                     c01.validate_traces(chk, h, bad)
-                    mon += [(sc, k, m) for k, m in null_history_fails(h, kf)]
+                    mon += [(sc, k, m) for k, m in null_history_fails(h, kf) + null_F_fails(h, chk.cov)]
+            # viscosity-bound regimes under velocity gradients that vary INSIDE an update: the texture must not move and the
+            # returned F must still be the solution of dF/dt = L(t, x(t)).F (own PRNG stream)
+            nf = chk.cov.setdefault("null_regime_unsteady_flow_histories", {})
+            for sc in null_unsteady_scenarios(np.random.default_rng([chk.seed, 0xC07D]), chk.tier):
+                h = c01.run_history(rec, sc, F0=start_F(sc))
+                c01.validate_traces(chk, h, bad)
+                mon += [(sc, k, m) for k, m in null_history_fails(h, kf) + null_F_fails(h, chk.cov)]
+                key = sc["lkind"] + ("/get_regime" if sc.get("regime_switch") else "")
+                nf[key] = nf.get(key, 0) + 1
             # zero mobility: volume fractions unchanged (no sliding)
             for lk in MT.L_FAMILIES[:4] if chk.tier == "quick" else MT.L_FAMILIES:
                 sc = MT.scenario(rng, regime=4, n=int(rng.integers(2, 10)), lkind=lk, nupd=2)
@@ -222,9 +271,10 @@ def replay(d):
     if "pair" in sc:
         sc["pair"] = tuple(sc["pair"])
         with MT.Recorder() as rec:
-            h = c01.run_history(rec, sc)
-        null = sc.get("rate") == 0.0 or sc.get("regime") in (0, 7)
-        fails = null_history_fails(h, []) if null else list(h["fails"])
+            h = c01.run_history(rec, sc, F0=start_F(sc))
+        sw = sc.get("regime_switch")
+        null = sc.get("rate") == 0.0 or (sc.get("regime") in (0, 7) and not sw) or bool(sw and sw[0] in (0, 7) and sw[1] in (0, 7))
+        fails = (null_history_fails(h, []) + null_F_fails(h)) if null else list(h["fails"])
         for k, m in fails:
             print("still fails:", k, m)
         return 1 if fails else 0
